@@ -243,6 +243,9 @@ func extractLabelAtEnd(text string, leftBoundary string, rightBoundary string, m
 
 // matchValidCharsFromStart returns the end of substring from start which matches the given validChars
 func matchValidCharsFromStart(s string, validChars []bool) int {
+	if validChars == nil { // "*" without a far boundary: every byte belongs to the target
+		return len(s)
+	}
 	for i := 0; i < len(s); i++ {
 		c := s[i]
 		if !validChars[c] {
@@ -254,6 +257,9 @@ func matchValidCharsFromStart(s string, validChars []bool) int {
 
 // matchValidCharsFromEnd returns the beginning of substring from end which matches the given validChars
 func matchValidCharsFromEnd(s string, validChars []bool) int {
+	if validChars == nil { // "*" without a far boundary: every byte belongs to the target
+		return 0
+	}
 	for i := len(s) - 1; i >= 0; i-- {
 		c := s[i]
 		if !validChars[c] {
